@@ -44,8 +44,9 @@ What the model does differently from what one might expect (each recorded at the
 * `^` on a line of blanks: the model goes to the last blank, the reference function `firstNonBlank`
   returns 0 (its comment says "its last column").
 * `|` also sets `vi_pcol`.
-* the NUL key is taken by `vi_motionln(row, 0)` as the "doubled operator letter" (`viMotionln_doubled`
-  with `cmd = 0`).
+* the NUL key is NOT taken by `vi_motionln(row, 0)` as the "doubled operator letter" any more (it was, before
+  the repair `cmd != 0 && c == cmd`): `viMotionln_doubled` needs `cmd ≠ 0`, and with `cmd = 0` the NUL key is
+  pushed back like any other key (`viMotionln_other`; `Props/C05g.lean` `nul_key_no_motion`).
 
 Not proved here (these are statements that are absent; every theorem in the file is complete):
 * the closed form of `Nl` / `Nh` (`min (off + N) lastCol`, `off - N`) is proved for increasing position
@@ -176,8 +177,9 @@ def lineKeyBefore (c : Int) : Bool :=
   c == 76 || c == 77
 
 /-- the doubled operator letter (`dd`, `yy`, `>>` …: the key equals `cmd`, and is none of the keys
-    tested first): like `_`.  With `cmd = 0` (the call from `vi_motion`) this is the NUL key. -/
-theorem viMotionln_doubled (row cmd : Int) (s s1 : VS) (hrd : viRead s = Res.ok cmd s1)
+    tested first): like `_`.  With `cmd = 0` (the call from `vi_motion`) there is no operator letter: a NUL
+    key is not a motion (`hcmd0`; it is pushed back, `viMotionln_other`). -/
+theorem viMotionln_doubled (row cmd : Int) (s s1 : VS) (hrd : viRead s = Res.ok cmd s1) (hcmd0 : cmd ≠ 0)
     (hnk : lineKeyBefore cmd = false) (h0 : 0 ≤ row) (h1 : row < lenOf s) (hcnt : 1 ≤ cntOf s) :
     viMotionln row cmd s = Res.ok (cmd, min (row + cntOf s - 1) (lenOf s - 1)) s1 := by
   unfold lineKeyBefore at hnk
@@ -186,7 +188,7 @@ theorem viMotionln_doubled (row cmd : Int) (s s1 : VS) (hrd : viRead s = Res.ok 
   unfold viMotionln
   simp only [bind, Vi.get, hrd, pure]
   have hneg : ¬ (min (row + cntOf s - 1) (lenOf s - 1) < 0) := by omega
-  simp [a1, a2, a3, a4, a5, a6, a7, a8, a9, a10, a11, hneg]
+  simp [a1, a2, a3, a4, a5, a6, a7, a8, a9, a10, a11, hneg, hcmd0]
 
 /-- `G` (71): with a count to line `cnt` (row `cnt - 1`), stopping at the last line; without a count
     to the last line -/
@@ -287,15 +289,20 @@ def isLineKey (c : Int) : Bool :=
   c == 106 || c == 43 || c == 10 || c == 107 || c == 45 || c == 95 || c == 71 || c == 72 || c == 76 || c == 77
 
 /-- **a key that is not a line motion is pushed back** and `(0, row)` returned: not one of
-    `j + RET k - _ G H L M '`, not the operator letter, and `%` only without a count -/
+    `j + RET k - _ G H L M '`, not the operator letter (when there is one: with `cmd = 0` every such key is
+    pushed back, the NUL key included), and `%` only without a count -/
 theorem viMotionln_other (row cmd : Int) (s s1 : VS) (c : Int) (hrd : viRead s = Res.ok c s1)
-    (hk : isLineKey c = false) (h39 : c ≠ 39) (hcmd : c ≠ cmd) (h37 : c = 37 → hasCount s = false) :
+    (hk : isLineKey c = false) (h39 : c ≠ 39) (hcmd : cmd ≠ 0 → c ≠ cmd) (h37 : c = 37 → hasCount s = false) :
     viMotionln row cmd s = Res.ok (0, row) { s1 with vibuf := c :: s1.vibuf } := by
   unfold isLineKey at hk
   simp only [Bool.or_eq_false_iff] at hk
   obtain ⟨⟨⟨⟨⟨⟨⟨⟨⟨a1, a2⟩, a3⟩, a4⟩, a5⟩, a6⟩, a7⟩, a8⟩, a9⟩, a10⟩ := hk
   have a11 : (c == 39) = false := by simp; exact h39
-  have a12 : (c == cmd) = false := by simp; exact hcmd
+  have a12 : (cmd != 0 && c == cmd) = false := by
+    by_cases h : cmd = 0
+    · subst h; rfl
+    · have : (c == cmd) = false := by simp; exact hcmd h
+      rw [this, Bool.and_false]
   have a13 : (c == 37 && (s.arg1 != 0 || s.arg2 != 0)) = false := by
     by_cases h : c = 37
     · have := h37 h; unfold hasCount at this; rw [this]; simp
@@ -359,14 +366,15 @@ theorem viMotionln_row_valid (row cmd : Int) (s s' : VS) (mv r : Int)
       unfold lineKeyBefore
       simp only [Bool.or_eq_false_iff, beq_eq_false_iff_ne, ne_eq]
       omega
-    by_cases c9 : c = cmd
-    · subst c9
-      rw [viMotionln_doubled row c s s1 hrd hlk h0 h1 hcnt] at h
+    by_cases c9 : cmd ≠ 0 ∧ c = cmd
+    · obtain ⟨c90, c9⟩ := c9
+      subst c9
+      rw [viMotionln_doubled row c s s1 hrd c90 hlk h0 h1 hcnt] at h
       injection h with h _; injection h with _ h; omega
     by_cases c10 : c = 37 ∧ hasCount s = true
     · obtain ⟨c10, hc⟩ := c10
       subst c10
-      rw [viMotionln_percent row cmd s s1 hrd (fun e => c9 e.symm) hc hn hcnt] at h
+      rw [viMotionln_percent row cmd s s1 hrd (fun e => c9 ⟨by omega, e.symm⟩) hc hn hcnt] at h
       split at h
       · injection h with h _; injection h with _ h; omega
       · rename_i hbig
@@ -380,7 +388,7 @@ theorem viMotionln_row_valid (row cmd : Int) (s s' : VS) (mv r : Int)
         unfold isLineKey
         simp only [Bool.or_eq_false_iff, beq_eq_false_iff_ne, ne_eq]
         omega
-      rw [viMotionln_other row cmd s s1 c hrd hik c8 c9 (fun e => by
+      rw [viMotionln_other row cmd s s1 c hrd hik c8 (fun e0 e => c9 ⟨e0, e⟩) (fun e => by
         cases hh : hasCount s with
         | false => rfl
         | true => exact absurd ⟨e, hh⟩ c10)] at h
@@ -488,7 +496,7 @@ def refKey (c : Int) : Int := if isLineKey c then c else 95
     nothing else changes.  The motion never fails (these keys have no failing case in the reference:
     they stop at the first / last line). -/
 theorem motion_lands_ln (row cmd : Int) (s s1 : VS) (c : Int) (hrd : viRead s = Res.ok c s1)
-    (hk : isLineKey c = true ∨ (c = cmd ∧ c ≠ 39))
+    (hk : isLineKey c = true ∨ (c = cmd ∧ c ≠ 39 ∧ c ≠ 0))
     (h0 : 0 ≤ row) (h1 : row < lenOf s) (hcnt : 1 ≤ cntOf s) :
     viMotionln row cmd s =
       Res.ok (c, refLine (refKey c) (cntOf s) row (lenOf s) s.ed.xtop s.xrows (hasCount s)) s1 := by
@@ -519,7 +527,7 @@ theorem motion_lands_ln (row cmd : Int) (s s1 : VS) (c : Int) (hrd : viRead s = 
     · rw [viMotionln_L row cmd s s1 hrd]; rfl
     · rw [viMotionln_M row cmd s s1 hrd]; rfl
   · have hlk' : isLineKey c = false := by simpa using hlk
-    rcases hk with hk | ⟨rfl, h39⟩
+    rcases hk with hk | ⟨rfl, h39, hc0⟩
     · exact absurd hk hlk
     · have hrk : refKey c = 95 := by unfold refKey; rw [if_neg hlk]
       have hb : lineKeyBefore c = false := by
@@ -527,7 +535,7 @@ theorem motion_lands_ln (row cmd : Int) (s s1 : VS) (c : Int) (hrd : viRead s = 
         unfold lineKeyBefore
         simp only [Bool.or_eq_false_iff, beq_eq_false_iff_ne, ne_eq] at hlk' ⊢
         omega
-      rw [hrk, viMotionln_doubled row c s s1 hrd hb h0 h1 hcnt]
+      rw [hrk, viMotionln_doubled row c s s1 hrd hc0 hb h0 h1 hcnt]
       unfold refLine clampI; simp; omega
 
 /-- `motion_lands_ln` for a key typed at the terminal: with nothing pushed back and `k :: rest`
@@ -535,7 +543,7 @@ theorem motion_lands_ln (row cmd : Int) (s s1 : VS) (c : Int) (hrd : viRead s = 
     state is `s` with `k` moved from the queue to `icmd` -/
 theorem motion_lands_ln_pending (row cmd : Int) (s : VS) (k : Nat) (rest : Bytes)
     (hv : s.vibuf = []) (hp : pending s = k :: rest)
-    (hk : isLineKey (k : Int) = true ∨ ((k : Int) = cmd ∧ k ≠ 39))
+    (hk : isLineKey (k : Int) = true ∨ ((k : Int) = cmd ∧ k ≠ 39 ∧ k ≠ 0))
     (h0 : 0 ≤ row) (h1 : row < lenOf s) (hcnt : 1 ≤ cntOf s) :
     ∃ s1, viMotionln row cmd s =
         Res.ok ((k : Int), refLine (refKey k) (cntOf s) row (lenOf s) s.ed.xtop s.xrows (hasCount s)) s1 ∧
@@ -543,15 +551,15 @@ theorem motion_lands_ln_pending (row cmd : Int) (s : VS) (k : Nat) (rest : Bytes
       ∃ ib ip ty, s1 = { s with ibuf := ib, ibufPos := ip, typed := ty, icmd := icmdAfter s.icmd k } := by
   obtain ⟨s1, h1', h2, h3, h4⟩ := viRead_pending s k rest hv hp
   refine ⟨s1, motion_lands_ln row cmd s s1 k h1' ?_ h0 h1 hcnt, h2, h3, h4⟩
-  rcases hk with hk | ⟨hk, h39⟩
+  rcases hk with hk | ⟨hk, h39, hk0⟩
   · exact Or.inl hk
-  · exact Or.inr ⟨hk, by omega⟩
+  · exact Or.inr ⟨hk, by omega, by omega⟩
 
 /-- a key that is not a line motion, typed at the terminal: it is pushed back (so it is the next key
     again), `(0, row)` is returned, and `rest` is still what follows it -/
 theorem viMotionln_other_pending (row cmd : Int) (s : VS) (k : Nat) (rest : Bytes)
     (hv : s.vibuf = []) (hp : pending s = k :: rest)
-    (hk : isLineKey (k : Int) = false) (h39 : k ≠ 39) (hcmd : (k : Int) ≠ cmd)
+    (hk : isLineKey (k : Int) = false) (h39 : k ≠ 39) (hcmd : cmd ≠ 0 → (k : Int) ≠ cmd)
     (h37 : k = 37 → hasCount s = false) :
     ∃ s1, viMotionln row cmd s = Res.ok (0, row) s1 ∧ s1.vibuf = [(k : Int)] ∧ pending s1 = rest ∧
       viRead s1 = Res.ok (k : Int) { s1 with vibuf := [] } ∧
@@ -581,7 +589,7 @@ theorem KeyFrame.col2off {s s' : VS} (h : KeyFrame s s') : col2off s' = col2off 
 theorem viMotionln_char_key (row : Int) (s s1 : VS) (mv : Int) (hrd : viRead s = Res.ok mv s1)
     (hk : isLineKey mv = false) (h39 : mv ≠ 39) (h0 : mv ≠ 0) (h37 : mv ≠ 37) :
     viMotionln row 0 s = Res.ok (0, row) { s1 with vibuf := mv :: s1.vibuf } :=
-  viMotionln_other row 0 s s1 mv hrd hk h39 h0 (fun h => absurd h h37)
+  viMotionln_other row 0 s s1 mv hrd hk h39 (fun _ => h0) (fun h => absurd h h37)
 
 /-- `0` (48): to offset 0; the offset given does not matter -/
 theorem viMotion_zero (row off : Int) (s s1 : VS) (hrd : viRead s = Res.ok 48 s1) :
